@@ -504,7 +504,7 @@ def codegen_sqrt(x):
     """
     alg = x.algebra
     if x.grades == (0,):
-        return {0: f'({str(x.e)}**0.5)'}
+        return {0: f'(({str(x.e)})**0.5)'}
     a, bI = x.grade(0), x - x.grade(0)
     has_solution = len(x.grades) <= 2 and 0 in x.grades
     if not has_solution:
@@ -512,10 +512,10 @@ def codegen_sqrt(x):
 
     bI_sq = bI * bI
     if not bI_sq:
-        cp = f'({str(a.e)}**0.5)'
+        cp = f'(({str(a.e)})**0.5)'
     else:
         normS = (a * a - bI * bI).e
-        cp = f'(0.5 * ({str(a.e)} + {str(normS)}**0.5)) ** 0.5'
+        cp = f'(0.5 * (({str(a.e)}) + ({str(normS)})**0.5)) ** 0.5'
     c = alg.scalar(name='c')
     c2_inv = alg.scalar(name='c2_inv')
     dI = bI * c2_inv
